@@ -38,10 +38,11 @@ Section Pipeline.
     pr_e1 : condense_spaces t0 = Ok pr_t1;            pr_g1 : Grouped G_spaces t0 pr_t1;
     pr_e2 : condense_newlines pr_t1 = Ok pr_t2;       pr_g2 : Grouped G_newlines pr_t1 pr_t2;
     pr_g3 : Grouped G_breaks pr_t2 (newlines_to_breaks pr_t2);
-    pr_e4 : condense_contractions src (newlines_to_breaks pr_t2) = Ok pr_t4;
-    pr_g4 : Grouped (G_pattern (contraction_matches src) (fun k => k)) (newlines_to_breaks pr_t2) pr_t4;
-    pr_e5 : condense_dotted_initialisms pr_t4 = Ok pr_t5;  pr_g5 : Grouped G_initialism pr_t4 pr_t5;
-    pr_e6 : condense_number_suffixes src pr_t5 = Ok pr_t6; pr_g6 : Grouped (G_suffix src) pr_t5 pr_t6;
+    pr_e4 : condense_number_suffixes src (newlines_to_breaks pr_t2) = Ok pr_t4;
+    pr_g4 : Grouped (G_suffix src) (newlines_to_breaks pr_t2) pr_t4;
+    pr_e5 : condense_contractions src pr_t4 = Ok pr_t5;
+    pr_g5 : Grouped (G_pattern (contraction_matches src) (fun k => k)) pr_t4 pr_t5;
+    pr_e6 : condense_dotted_initialisms pr_t5 = Ok pr_t6;  pr_g6 : Grouped G_initialism pr_t5 pr_t6;
     pr_e7 : condense_ellipsis src pr_t6 = Ok pr_t7;
     pr_g7 : Grouped (G_pattern (ellipsis_matches src) (fun _ => KPunct PEllipsis)) pr_t6 pr_t7;
     pr_e8 : condense_latin src pr_t7 = Ok t8;
@@ -61,12 +62,12 @@ Section Pipeline.
     pose proof (grouped_tiling _ _ _ G2 _ _ T1) as T2.
     pose proof (newlines_to_breaks_grouped t2) as G3.
     pose proof (grouped_tiling _ _ _ G3 _ _ T2) as T3.
-    destruct (contraction_ok src (newlines_to_breaks t2)) as [MO4 ME4].
-    destruct (condense_pattern_grouped _ (fun k => k) _ _ _ T3 MO4 ME4) as [t4 [E4 G4]].
+    destruct (condense_number_suffixes_grouped src _ T3) as [t4 [E4 G4]].
     pose proof (grouped_tiling _ _ _ G4 _ _ T3) as T4.
-    destruct (condense_dotted_initialisms_grouped _ _ _ T4) as [t5 [E5 G5]].
+    destruct (contraction_ok src t4) as [MO5 ME5].
+    destruct (condense_pattern_grouped _ (fun k => k) _ _ _ T4 MO5 ME5) as [t5 [E5 G5]].
     pose proof (grouped_tiling _ _ _ G5 _ _ T4) as T5.
-    destruct (condense_number_suffixes_grouped src _ T5) as [t6 [E6 G6]].
+    destruct (condense_dotted_initialisms_grouped _ _ _ T5) as [t6 [E6 G6]].
     pose proof (grouped_tiling _ _ _ G6 _ _ T5) as T6.
     destruct (ellipsis_ok src t6) as [MO7 ME7].
     destruct (condense_pattern_grouped _ (fun _ => KPunct PEllipsis) _ _ _ T6 MO7 ME7) as [t7 [E7 G7]].
@@ -121,7 +122,7 @@ Proof.
   - intros tw Hk. unfold lex_tabs in E1. cbv zeta in E1. destruct (_ =? 0); congruence.
   - intros tw Hk. unfold lex_spaces in E2. cbv zeta in E2. destruct (_ =? 0); congruence.
   - intros tw Hk. unfold lex_newlines in E3. cbv zeta in E3. destruct (_ =? 0); congruence.
-  - intros tw Hk. pose proof (shape_plural_digit u) as S. unfold lex_plural_digit in E4.
+  - intros tw Hk. unfold lex_plural_digit in E4.
     destruct src as [|c0 r1]; [discriminate|]. destruct (negb _); [discriminate|].
     destruct r1 as [|c t]; [discriminate|]. cbv zeta in E4.
     destruct (ceq c 39).
@@ -565,9 +566,9 @@ Proof.
   pose proof (grouped_inv _ _ _ (rule_spaces u s false false) _ _ pr_g1 _ _ T0 S0) as S1.
   pose proof (grouped_inv _ _ _ (rule_newlines u s false false) _ _ pr_g2 _ _ pr_T1 S1) as S2.
   pose proof (grouped_inv _ _ _ (rule_breaks u s false false) _ _ pr_g3 _ _ pr_T2 S2) as S3.
-  pose proof (grouped_inv _ _ _ (rule_contraction u laws s false) _ _ pr_g4 _ _ pr_T3 S3) as S4.
-  pose proof (grouped_inv _ _ _ (rule_initialism u laws s false) _ _ pr_g5 _ _ pr_T4 S4) as S5.
-  pose proof (grouped_inv _ _ _ (rule_suffix u s false) _ _ pr_g6 _ _ pr_T5 S5) as S6.
+  pose proof (grouped_inv _ _ _ (rule_suffix u s false) _ _ pr_g4 _ _ pr_T3 S3) as S4.
+  pose proof (grouped_inv _ _ _ (rule_contraction u laws s true) _ _ pr_g5 _ _ pr_T4 S4) as S5.
+  pose proof (grouped_inv _ _ _ (rule_initialism u laws s true) _ _ pr_g6 _ _ pr_T5 S5) as S6.
   pose proof (grouped_inv _ _ _ (rule_ellipsis u s true false) _ _ pr_g7 _ _ pr_T6 S6) as S7.
   pose proof (grouped_inv _ _ _ (fun g k a b => rule_latin u laws s true pr_t7 g k a b (tiling_tok_ok s pr_t7 pr_T7)) _ _ pr_g8 _ _ pr_T7 S7) as S8.
   (* no twins, pass by pass *)
@@ -575,9 +576,9 @@ Proof.
   pose proof (grouped_inv _ _ _ nt_spaces _ _ pr_g1 _ _ T0 N0) as N1.
   pose proof (grouped_inv _ _ _ nt_newlines _ _ pr_g2 _ _ pr_T1 N1) as N2.
   pose proof (grouped_inv _ _ _ nt_breaks _ _ pr_g3 _ _ pr_T2 N2) as N3.
-  pose proof (grouped_inv _ _ _ (nt_pattern_id _) _ _ pr_g4 _ _ pr_T3 N3) as N4.
-  pose proof (grouped_inv _ _ _ nt_initialism _ _ pr_g5 _ _ pr_T4 N4) as N5.
-  pose proof (grouped_inv _ _ _ (nt_suffix s) _ _ pr_g6 _ _ pr_T5 N5) as N6.
+  pose proof (grouped_inv _ _ _ (nt_suffix s) _ _ pr_g4 _ _ pr_T3 N3) as N4.
+  pose proof (grouped_inv _ _ _ (nt_pattern_id _) _ _ pr_g5 _ _ pr_T4 N4) as N5.
+  pose proof (grouped_inv _ _ _ nt_initialism _ _ pr_g6 _ _ pr_T5 N5) as N6.
   pose proof (grouped_inv _ _ _ (nt_ellipsis _) _ _ pr_g7 _ _ pr_T6 N6) as N7.
   pose proof (grouped_inv _ _ _ (nt_pattern_in_id _ _) _ _ pr_g8 _ _ pr_T7 N7) as N8.
   destruct (passes_run_document s t0 t8 R N8) as [t9 [E9 [T9 [SB QO]]]].
@@ -611,9 +612,9 @@ Proof.
   pose proof (grouped_inv _ _ _ nt_spaces _ _ pr_g1 _ _ T0 N0) as N1.
   pose proof (grouped_inv _ _ _ nt_newlines _ _ pr_g2 _ _ pr_T1 N1) as N2.
   pose proof (grouped_inv _ _ _ nt_breaks _ _ pr_g3 _ _ pr_T2 N2) as N3.
-  pose proof (grouped_inv _ _ _ (nt_pattern_id _) _ _ pr_g4 _ _ pr_T3 N3) as N4.
-  pose proof (grouped_inv _ _ _ nt_initialism _ _ pr_g5 _ _ pr_T4 N4) as N5.
-  pose proof (grouped_inv _ _ _ (nt_suffix s) _ _ pr_g6 _ _ pr_T5 N5) as N6.
+  pose proof (grouped_inv _ _ _ (nt_suffix s) _ _ pr_g4 _ _ pr_T3 N3) as N4.
+  pose proof (grouped_inv _ _ _ (nt_pattern_id _) _ _ pr_g5 _ _ pr_T4 N4) as N5.
+  pose proof (grouped_inv _ _ _ nt_initialism _ _ pr_g6 _ _ pr_T5 N5) as N6.
   pose proof (grouped_inv _ _ _ (nt_ellipsis _) _ _ pr_g7 _ _ pr_T6 N6) as N7.
   pose proof (grouped_inv _ _ _ (nt_pattern_in_id _ _) _ _ pr_g8 _ _ pr_T7 N7) as N8.
   destruct (passes_run_document s t0 t8 R N8) as [t9 [E9 [T9 [SB QO]]]].
